@@ -77,7 +77,7 @@ def discharge(ob, timeout_s=10.0, use_fallbacks=True):
     if ob.expect == 'sat':
         # cover / canary: the hypotheses must be satisfiable
         for mbqi in (True, False):
-            s = _solver(min(timeout_s, 3.0) * 1000, mbqi)
+            s = _solver(min(timeout_s, 1.0) * 1000, mbqi)
             s.add(*ob.hyps)
             r = s.check()
             if r == z3.sat:
